@@ -1,7 +1,17 @@
 """C39 Ordered sets, range sets and sort lists behave as their abstract types
 (util/ranges, util/ordset, util/sortlist, util/bloom, util/roaring, util/shmap, util/cache, util/lrucache)
 
-Mutation testing (scratch worktree, VERIF_REPO, quick tier, seed 1) -- see bottom of file.
+Mutation testing (scratch worktree /tmp/ixs-mut, VERIF_REPO, quick tier, seed 1; "tests" = go test of
+the mutated package):
+  caught by this check, package tests green:
+    ordset-revert-df105d1  `i < leaf.size &&` dropped again in ordset leaf.insert   VIOLATION (OEmpty/OHas after Insert(""))
+    cache-no-used          cache.Get ignores the used flag (zero key 0 "cached")     VIOLATION at CGet k=0
+    lru-no-del             lrucache.Put does not unmap the evicted key               VIOLATION at LGetPut (stale value)
+    sortlist-merge-skip    merge skipped when leftLast < middle of the right run     VIOLATION at SLBuild (missed at first;
+                           caught after adding the "skew" scenario: every other block from a low key band)
+  killed by the package's own tests already: ranges-overlap-touch (`to > from`), ranges-contains-lt,
+    ranges-inc (inc-- dropped), ranges-contains-nosize, ordset-any-lt (`< to`), ordset-any-nextleaf,
+    ordset-contains-nosize, shmap-del-notomb (never tombstone), roaring-has-bitmap (bit 65535)
 """
 
 META = {
